@@ -57,3 +57,8 @@ func (s *Storer) VerifSegBounds() []int64 {
 func (r *Reader) VerifAofClosed() bool {
 	return r.aof == nil || r.aof.wait.IsClosed()
 }
+
+// VerifSetReadBufSize sets the size of the pipe/bufio buffers handed to new readers
+// (1 MiB by default; a buffer size, not logic - small values keep the explorer's
+// allocation rate down).
+func (s *Storer) VerifSetReadBufSize(n int) { s.readBufSize = n }
